@@ -1333,6 +1333,9 @@ func (fr *frame) baseEnv(st *State) *Env {
 		tpkg = fr.fn.Pkg.Pkg
 	}
 	env := &Env{fc: fc, tpkg: tpkg, names: map[string]TV{}, cur: st, old: fr.entryState, loopEntry: fr.loopEntry}
+	if fr.iterated != "" {
+		env.names["iterated"] = TV{fr.iterated, "Int", types.Typ[types.Int]}
+	}
 	env.addrOf = func(name string) (string, *addr, types.Type, bool) {
 		for _, fv := range fr.fn.FreeVars {
 			if fv.Name() == name {
@@ -1479,7 +1482,12 @@ func (fr *frame) foreachCall(fe *foreachHelper, ctr *FuncContract, mc *ssa.MakeC
 		}
 		bindPattern = func(p0, p1 string) string { return fmt.Sprintf("(select %s %s)", dom, p0) }
 	}
+	itTerm := fr.val(cc.Value)
+	if fe.kind == 2 {
+		itTerm = fr.val(cc.Args[0])
+	}
 	paramEnv := func(e *Env, p0, p1 string) {
+		e.names["iterated"] = TV{itTerm, "Int", types.Typ[types.Int]}
 		e.names[fn.Params[0].Name()] = TV{p0, P.SortOf(fn.Params[0].Type()), fn.Params[0].Type()}
 		e.names[fn.Params[1].Name()] = TV{p1, P.SortOf(fn.Params[1].Type()), fn.Params[1].Type()}
 	}
